@@ -50,6 +50,7 @@ class Backend:
         self.prune_children = cfg.get("prune_children", False)
         self.timer_lag = cfg.get("timer_lag", 0.0)
         self.api_latency = cfg.get("api_latency", 0.0)
+        self.empty_page_at = cfg.get("empty_page_at")  # insert an empty page (with a marker) after that many pages
         self.arn = "arn:aws:lambda:us-east-1:123456789012:durable-execution:sim"
         self.now = cfg.get("t0", 1_800_000_000.0)
         self.ops: dict[str, dict] = {}
@@ -399,6 +400,9 @@ class Backend:
         key = f"mk-{len(self.pages)}"
         size = max(1, self.state_page)
         chunks = [items[i: i + size] for i in range(0, len(items), size)]
+        if self.empty_page_at is not None and chunks:
+            # a page may legitimately be empty and still carry a continuation marker
+            chunks.insert(min(self.empty_page_at, len(chunks) - 1), [])
         for i, ch in enumerate(chunks):
             self.pages[f"{key}-{i}"] = (ch, f"{key}-{i + 1}" if i + 1 < len(chunks) else None, json_form)
         return f"{key}-0"
